@@ -11,6 +11,7 @@ ASSUMPTIONS = {
     "E12": "& | ^ on symbolic ints in [0, 2^64) encoded as div/mod by powers of two (constant operand) or 64-bit bit-vectors",
 }
 ASSUMPTIONS.update({
+    "E13": "str() of a keyword-style DNSException returns its un-interpolated format string (message texts are outside every property; str.format would realize symbolic durations)",
     "E6": "Name.__hash__/Rdata.__hash__ rebound to a constant in the analysis process (legal: equal objects still hash equal); dict/set membership is then decided by the real __eq__",
     "E7": "time.time()/sleep replaced by a harness-owned integer clock advanced by symbolic non-negative deltas",
     "E8": "dns.entropy.random_16/between fixed; rendering uses want_shuffle=False",
